@@ -388,6 +388,9 @@ def mon_sources_after_close(sim, prefix='C09'):
                 break
             for s in srcs:
                 LOOP.fire(s)
+        if list(getattr(ep.h, 'locations', []) or []):
+            bad.append(('%s:dbus-object-left-after-close' % prefix,
+                        'endpoint %s is closed but its D-Bus object is still exported at %r' % (ep.name, list(ep.h.locations))))
         left = ep.sources()
         if left:
             bad.append(('%s:source-left-after-close-%s' % (prefix, getattr(left[0].func, '__name__', '?')),
